@@ -26,7 +26,7 @@ type GRPCServer struct {
 
 // Serve starts a real gRPC server for impl on a bufconn listener.
 func Serve(impl spb.GRIBIServer) *GRPCServer {
-	g := &GRPCServer{Srv: grpc.NewServer(), lis: bufconn.Listen(1 << 20)}
+	g := &GRPCServer{Srv: grpc.NewServer(), lis: bufconn.Listen(1 << 16)}
 	spb.RegisterGRIBIServer(g.Srv, impl)
 	go g.Srv.Serve(g.lis)
 	return g
